@@ -129,7 +129,8 @@ def container_may_be_nonempty(f, var, paired=None, others=()):
                 c = unwrap(f, f.children(c)[0])
             if c is not None and c["k"] == "CXXMemberCallExpr" and c["callee"]["name"] == "empty":
                 cp_ = path(f, f.s(c["obj"]))
-                tested = [cp_] if cp_ in allv else ([var] if cp_ == paired else [])
+                pset = paired if isinstance(paired, (set, frozenset, list, tuple)) else ([paired] if paired else [])
+                tested = [cp_] if cp_ in allv else ([var] if cp_ in pset else [])
                 if tested:
                     emp = frozenset(x for x in st_ if x not in tested)
                     t_empty = not neg
@@ -198,9 +199,7 @@ def unlocked(ctx, rid="C16.unlocked"):
                 p = path(f, f.s(s["obj"]))
                 if p and p != keep and p.startswith("l:"):
                     cand.setdefault(p, set()).add(f.pos_of(s)[0])
-        for p, bl in cand.items():
-            if bl == kblocks:
-                paired = p
+        paired = [p for p, bl in cand.items() if bl == kblocks] or None      # every container filled in step with it
         ne = container_may_be_nonempty(f, keep, paired, others=keeps)
         # callbacks
         cbs = [st for st in f.stmts.values() if st["k"] == "CXXOperatorCallExpr" and st.get("op") == "()" and
@@ -353,6 +352,15 @@ def select(ctx, cls):
                "(use_count() == 1)", "" if ok else "selection is not guarded by use_count() == 1", fn=f.label, inst=f.qname)
         rm = [s for s in f.stmts.values() if s["k"] == "CallExpr" and callee_fq(s) == "std::remove_if"]
         ok = len(rm) == 1
+        if not rm:
+            # the removal is no longer a remove_if with a predicate (a hand-written compaction, ...): the membership test is
+            # looked for in the function itself; where it is, is not judged by this clause
+            body_ok = any(s["k"] == "CallExpr" and callee_fq(s) == "std::find" for s in f.stmts.values()) and \
+                sum(1 for s in f.stmts.values() if s["k"] == "CXXMemberCallExpr" and s["callee"]["name"] == "use_count") >= 2
+            if body_ok:
+                ctx.unknown("%s: %s removes the collected elements without std::remove_if; the shape of its selection is not "
+                            "decided by this clause" % (rid, f.label))
+                continue
         if ok:
             lam = unwrap(f, f.s(rm[0]["args"][2]))
             while lam is not None and lam["k"] in CTORS and len(lam["args"]) == 1:
